@@ -316,6 +316,9 @@ func (h *hist) disable(which int, allowed bool) bool {
 		})
 }
 
+// upsertKills: the pool-upsert hook replaces the record of basket 1 (probed); such a history ends there
+var upsertKills = true
+
 var valAddr = sdk.ValAddress([]byte("c11validator________"))
 
 func (h *hist) hook(kind int, slash sdk.Dec) bool {
@@ -336,7 +339,7 @@ func (h *hist) hook(kind int, slash sdk.Dec) bool {
 			app.BasketKeeper.Hooks().AfterUpsertStakingPool(ctx, valAddr, pool)
 			return nil
 		})
-		h.dead = true
+		h.dead = upsertKills
 		return ok
 	}
 }
@@ -837,7 +840,7 @@ func scenarios(dist hx.Counter) []*hist {
 }
 
 // which variant of the two repaired places does this tree implement?
-func probe() (burnPre, editKeep bool) {
+func probe() (burnPre, editKeep, upsertSkip bool) {
 	d := hx.Counter{}
 	h := startHist("probe", plainConfig("1"), plainFunds(), d)
 	h.mint(1, []int{1}, []int64{1000})
@@ -851,6 +854,10 @@ func probe() (burnPre, editKeep bool) {
 	nb.Amount = sdk.ZeroInt()
 	h.edit(nb)
 	editKeep = h.cur.B.Amount.Equal(sdk.NewInt(1000))
+	h = startHist("probe", plainConfig("1"), plainFunds(), d)
+	h.mint(1, []int{1}, []int64{1000})
+	h.hook(2, sdk.ZeroDec())
+	upsertSkip = h.cur.B.Amount.Equal(sdk.NewInt(1000)) && len(h.cur.B.Tokens) == 1
 	return
 }
 
@@ -870,7 +877,8 @@ func main() {
 	admin = sdk.AccAddress([]byte("c11admin____________"))
 	msgServer = basketkeeper.NewMsgServerImpl(app.BasketKeeper, app.CustomGovKeeper)
 
-	burnPre, editKeep := probe()
+	burnPre, editKeep, upsertSkip := probe()
+	upsertKills = !upsertSkip
 	dist := hx.Counter{}
 	hs := scenarios(dist)
 	for i := 0; i < *n; i++ {
@@ -891,17 +899,17 @@ func main() {
 	}
 	pre := "(* written by /verif/harness/cmd/c11 -- observations of the real code *)\n" +
 		"From Sekai Require Import Base.Prelude Base.Dec Model.Basket Model.C11Check.\n" +
-		fmt.Sprintf("Definition c11_variant : variant := mkV %s %s.\n", hx.B(burnPre), hx.B(editKeep))
+		fmt.Sprintf("Definition c11_variant : variant := mkV %s %s %s.\n", hx.B(burnPre), hx.B(editKeep), hx.B(upsertSkip))
 	out.WriteFile("pre.v", pre)
 	out.WriteFile("cases.txt", strings.Join(lines, "\n")+"\n")
 	out.WriteJSON("meta.json", map[string]interface{}{"case_type": "c11_case", "mismatch_fn": "c11_mismatches c11_variant", "violation_fn": "c11_violations",
-		"burn_reads_supply_before": burnPre, "edit_keeps_amount": editKeep})
+		"burn_reads_supply_before": burnPre, "edit_keeps_amount": editKeep, "upsert_hook_skips": upsertSkip})
 	out.WriteJSON("cases.json", js)
 	byKind := map[string]int{}
 	for _, k := range dist.Sorted() {
 		byKind[k] = dist[k]
 	}
 	out.WriteJSON("dist.json", map[string]interface{}{"seed": seed, "histories": len(hs), "steps": steps, "holders": NH, "ops_by_kind_and_status": byKind,
-		"variant": map[string]bool{"burn_reads_supply_before": burnPre, "edit_keeps_amount": editKeep}})
+		"variant": map[string]bool{"burn_reads_supply_before": burnPre, "edit_keeps_amount": editKeep, "upsert_hook_skips": upsertSkip}})
 	fmt.Fprintf(os.Stderr, "c11: %d histories, %d steps\n", len(hs), steps)
 }
